@@ -174,6 +174,13 @@ def scenarios(rng, tmp, tier, pre=0.5):
                       want="nonzero", events=["timeout", "stop"]))
         S.append(dict(name=f"{vs}: script done well inside --timeout 20", actions=handshake(v), args=["key", "a"], timeout=20,
                       want="zero", events=["completed", "lostclean", "stop"], complete=True))
+    # ---- the client aborts on data it cannot decode while a capture waits for exactly that update
+    import struct as _st
+    badz = b"\0\0\0\x01" + _st.pack("!HHHHi", 0, 0, 4, 4, 16) + _st.pack("!I", 12) + b"not zlib data"[:12]
+    shortz = b"\0\0\0\x01" + _st.pack("!HHHHi", 0, 0, 64, 64, 16) + _st.pack("!I", 11) + __import__("zlib").compress(b"\x00\x01\x02")
+    for nm, payload in (("a ZRLE rectangle whose zlib data is garbage", badz), ("a ZRLE rectangle whose tile data ends early", shortz)):
+        S.append(dict(name=f"003.008: 'capture': the update carries {nm}", actions=handshake(b"003.008") + [("recv_until_fbur",), ("send", payload), ("silent",)],
+                      args=["capture", os.path.join(tmp, "undecodable.png")], timeout=8, want="nonzero", events=["losterror", "stop"], special=True))
     # ---- --timeout counts wall-clock seconds whatever --warp says (warp scales the script's pauses only)
     v = b"003.008"
     S.append(dict(name="--warp 4: 'key a pause 8 key b' (2 s of wall clock) inside --timeout 6", actions=handshake(v),
@@ -193,7 +200,7 @@ def scenarios(rng, tmp, tier, pre=0.5):
                   want="nonzero", events=["completed", "losterror", "stop"], big=True))
     if tier == "quick":
         # a third of the grid per run, always with the special cases
-        keep = [s for i, s in enumerate(S) if s.get("big") or s["actions"] is None or "slow handshake" in s["name"] or "--warp" in s["name"]
+        keep = [s for i, s in enumerate(S) if s.get("big") or s["actions"] is None or "slow handshake" in s["name"] or "--warp" in s["name"] or s.get("special")
                 or "key a key b key c" in s["name"] or "final pause" in s["name"] or "unknown key name" in s["name"] or (i + rng.randrange(3)) % 3 == 0]
         return keep
     return S
